@@ -53,6 +53,10 @@ structure Inv (p : Pool K) : Prop where
   resp : ∀ t ∈ p.tasks, ∀ o, t.resp = some o →
     (t.snapshot = [] ∧ o = .ok) ∨ o = .err .timeout ∨ (t.allDone = true ∧ o = useKeyspaceResult t.resultList)
   strong : p.overlap = false → Strong p
+  /-- no discipline needed: a published connection that is in NO task's snapshot (it was published after the
+  newest request arrived) carries the current keyspace, with nothing in flight -/
+  fresh : ∀ i ∈ p.conns, (∀ t ∈ p.tasks, i ∉ t.snapshot) → (p.net i).broken = false → (p.net i).unclaimed = false →
+    (p.net i).serverKs = p.currentKs ∧ (p.net i).queue = []
 
 theorem Inv.res_snap {p : Pool K} (h : Inv p) (t : Task K) (ht : t ∈ p.tasks) (i : Nat) (r : UseRes)
     (hr : t.results.lookup i = some r) : i ∈ t.snapshot :=
@@ -143,6 +147,17 @@ theorem inv_frame {p q : Pool K} (h : Inv p)
       · exact hs.2.2 i h1 (hb i hbr) hm
       · have hL : i ∉ L.snapshot := h1.2.1 L (by rw [htasks]; exact List.mem_cons_self)
         exact ⟨fun _ => ⟨by rw [h1.2.2.1, hs.1], h1.2.2.2.1⟩, fun hc => absurd hc hL⟩
+  · intro i hi hns hbr hm
+    rw [ht] at hns
+    rw [(hnet i).2.2.2.1] at hm
+    rw [(hnet i).1, hq, hks]
+    have hb' : (p.net i).broken = false := by
+      cases hpb : (p.net i).broken with
+      | false => rfl
+      | true => rw [(hnet i).2.2.2.2 hpb] at hbr; cases hbr
+    rcases hconns i hi with h1 | h1
+    · exact h.fresh i h1 hns hb' hm
+    · exact ⟨h1.2.2.1, h1.2.2.2.1⟩
 
 /-- Frame: the network changed only at connections that are neither published nor in any task's snapshot
 (a fresh connection, or one that is still private to its setting-keyspace future), and nothing was put in
@@ -194,6 +209,10 @@ theorem inv_frame2 {p q : Pool K} (h : Inv p)
       intro i hi hbr hm
       rw [hnet i (Or.inl hi)] at hbr hm ⊢
       exact hs.2.2 i hi hbr hm
+  · rw [ht, hks, hconns]
+    intro i hi hns hbr hm
+    rw [hnet i (Or.inl hi)] at hbr hm ⊢
+    exact h.fresh i hi hns hbr hm
 
 /-- What `accept` may change. -/
 theorem accept_frame (p : Pool K) (i : Nat) (req : Option Nat) :
@@ -364,6 +383,8 @@ theorem inv_useKs {p : Pool K} (h : Inv p) (k : K) : Inv (step p (.useKs k)) := 
     · intro i hi _ _
       unfold ConnOk
       exact ⟨fun hn => absurd hi hn, fun _ => ⟨fun hr => by simp at hr, fun _ hs => by simp at hs⟩⟩
+  · intro i hi hns _ _
+    exact absurd hi (hns _ List.mem_cons_self)
 
 theorem unique_id {ts : List (Task K)} (hp : ts.Pairwise (fun a b => a.id ≠ b.id)) {a b : Task K}
     (ha : a ∈ ts) (hb : b ∈ ts) (hid : a.id = b.id) : a = b := by
@@ -398,6 +419,15 @@ theorem modifyTask_of_ne {ts : List (Task K)} {tid : Nat} {f : Task K → Task K
   | cons a l ih =>
     simp only [List.map_cons, List.mem_cons, forall_eq_or_imp] at h ⊢
     rw [if_neg h.1, ih h.2]
+
+theorem nosnap_of_modify {ts : List (Task K)} {tid : Nat} {f : Task K → Task K}
+    (hf : ∀ t, (f t).snapshot = t.snapshot) {j : Nat}
+    (h : ∀ t' ∈ modifyTask ts tid f, j ∉ t'.snapshot) : ∀ t ∈ ts, j ∉ t.snapshot := by
+  intro t ht
+  have := h _ (mem_modifyTask.mpr ⟨t, ht, rfl⟩)
+  split at this
+  · rw [hf t] at this; exact this
+  · exact this
 
 theorem serveUse_props (c : Conn K) (k : K) (r : SrvReply K) :
     let (c', res) := serveUse c k r
@@ -514,6 +544,15 @@ theorem inv_serve_norec {p : Pool K} (h : Inv p) (i : Nat) (w : Waiter) (k : K) 
             simp only [List.cons_append, List.cons.injEq] at hpre
             refine ⟨pre', by rw [hsv.queue]; exact hpre.2, fun e he => hne e (List.mem_cons_of_mem _ he)⟩
       · rw [hnet j hji] at hb hm ⊢; exact hs.2.2 j hj hb hm
+  · intro j hj hns hb hm
+    try simp only at hj hns hb hm ⊢
+    by_cases hji : j = i
+    · subst hji
+      rw [hneti] at hb hm
+      rw [hsv.broken] at hb; rw [hsv.mark] at hm
+      have := (h.fresh j hj hns hb hm).2
+      rw [hqu] at this; cases this
+    · rw [hnet j hji] at hb hm ⊢; exact h.fresh j hj hns hb hm
 
 /-- The oldest `USE` on `i` is answered and the (alive) task that waits for it records the answer. -/
 theorem inv_serve_rec {p : Pool K} (h : Inv p) (i : Nat) (t0 : Task K) (k : K) (rest : List (Waiter × K))
@@ -692,6 +731,13 @@ theorem inv_serve_rec {p : Pool K} (h : Inv p) (i : Nat) (t0 : Task K) (k : K) (
         · simp only [List.lookup_cons] at hlk'
           have hne : (j == i) = false := by simp [hji]
           rw [hne] at hlk'; exact hlk'
+  · intro j hj hns hb hm
+    try simp only at hj hns hb hm ⊢
+    have hns' := nosnap_of_modify (f := fun t => { t with results := (i, res) :: t.results }) (fun _ => rfl) hns
+    by_cases hji : j = i
+    · subst hji
+      exact absurd (h.sub_snap t0 ht0 j hisub) (hns' t0 ht0)
+    · rw [hnet j hji] at hb hm ⊢; exact h.fresh j hj hns' hb hm
 
 /-- The connection after the node answered, out of order, a `USE` that was not the oldest in flight. -/
 structure ServedOoo (c c' : Conn K) (k : K) (res : UseRes) : Prop where
@@ -778,6 +824,11 @@ theorem inv_ooo_norec {p : Pool K} (h : Inv p) (i : Nat) (w : Waiter) (k : K) (c
       by_cases hji : j = i
       · subst hji; rw [hneti, hsv.mark] at hm; cases hm
       · rw [hnet j hji] at hb hm ⊢; exact hs.2.2 j hj hb hm
+  · intro j hj hns hb hm
+    try simp only at hj hns hb hm ⊢
+    by_cases hji : j = i
+    · subst hji; rw [hneti, hsv.mark] at hm; cases hm
+    · rw [hnet j hji] at hb hm ⊢; exact h.fresh j hj hns hb hm
 
 /-- An out-of-order answer recorded by the (alive) task that waits for it. -/
 theorem inv_ooo_rec {p : Pool K} (h : Inv p) (i : Nat) (t0 : Task K) (k : K)
@@ -936,6 +987,12 @@ theorem inv_ooo_rec {p : Pool K} (h : Inv p) (i : Nat) (t0 : Task K) (k : K)
         · simp only [List.lookup_cons] at hlk'
           have hne : (j == i) = false := by simp [hji]
           rw [hne] at hlk'; exact hlk'
+  · intro j hj hns hb hm
+    try simp only at hj hns hb hm ⊢
+    have hns' := nosnap_of_modify (f := fun t => { t with results := (i, res) :: t.results }) (fun _ => rfl) hns
+    by_cases hji : j = i
+    · subst hji; rw [hneti, hsv.mark] at hm; cases hm
+    · rw [hnet j hji] at hb hm ⊢; exact h.fresh j hj hns' hb hm
 
 /-- A task writes its `USE` on a snapshot connection (`broken` = the connection is broken: the request fails at
 once and nothing is written). -/
@@ -1161,6 +1218,12 @@ theorem inv_submit {p : Pool K} (h : Inv p) (t0 : Task K) (ht0 : t0 ∈ p.tasks)
           · simp only [↓reduceIte, List.lookup_cons] at hlk'
             have hne : (j == i) = false := by simp [hji]
             rw [hne] at hlk'; exact hlk'
+  · intro j hj hns hb hm
+    try simp only at hj hns hb hm ⊢
+    have hns' := nosnap_of_modify (f := f) (fun t => (hf t).2.2.1) hns
+    by_cases hji : j = i
+    · subst hji; exact absurd hi (hns' t0 ht0)
+    · rw [hNj j hji] at hb hm ⊢; exact h.fresh j hj hns' hb hm
 
 /-- A task answers its caller (`use_keyspace_result` of the collected results, or the timeout). -/
 theorem inv_taskResp {p : Pool K} (h : Inv p) (t0 : Task K) (ht0 : t0 ∈ p.tasks) (o : Outcome)
@@ -1246,6 +1309,10 @@ theorem inv_taskResp {p : Pool K} (h : Inv p) (t0 : Task K) (ht0 : t0 ∈ p.task
         · refine ⟨this.1, fun hin => ⟨(this.2 hin).1, fun hal => ?_⟩⟩
           simp at hal
         · exact this
+  · intro j hj hns hb hm
+    try simp only at hj hns hb hm ⊢
+    have hns' := nosnap_of_modify (f := fun t => { t with resp := some o }) (fun _ => rfl) hns
+    exact h.fresh j hj hns' hb hm
 
 /-- A user statement `USE x` is written on a published connection: from now on nothing is claimed about that
 connection until the next use-keyspace task writes its own `USE` behind it. -/
@@ -1316,6 +1383,11 @@ theorem inv_userUse {p : Pool K} (h : Inv p) (i : Nat) (x : K) (hi : i ∈ p.con
       by_cases hji : j = i
       · subst hji; simp [setConn] at hm
       · rw [hnet j hji] at hb hm ⊢; exact hs.2.2 j hj hb hm
+  · intro j hj hns hb hm
+    try simp only at hj hns hb hm ⊢
+    by_cases hji : j = i
+    · subst hji; simp [setConn] at hm
+    · rw [hnet j hji] at hb hm ⊢; exact h.fresh j hj hns hb hm
 
 theorem inv_simple {p q : Pool K} (h : Inv p) (hnet : NetLe p.net q.net) (hconns : ∀ j ∈ q.conns, j ∈ p.conns)
     (hset : ∀ e ∈ q.setting, e ∈ p.setting) (hid : q.nextId = p.nextId) (hks : q.currentKs = p.currentKs)
